@@ -19,6 +19,11 @@ TRUSTED = [
     "string formatting of the DOT text (labels, options, fontsize) is not modelled; the DOT text is parsed by "
     "harness/extract/c16_dot.py and compared as a graph",
     "OrderedDict / list / set semantics as transcribed (insertion order, `in`, iteration over keys)",
+    "scikit-learn 1.9 object layout: a fitted FeatureUnion holds a FunctionTransformer in place of 'passthrough' "
+    "(it is enumerated and records), Pipeline / ColumnTransformer.transformers keep the string; a fitted "
+    "ColumnTransformer runs the clones kept in transformers_",
+    "Kind (transformer / classifier / regressor / other) of a leaf class is computed by the harness with the priority "
+    "TransformerMixin > ClassifierMixin > RegressorMixin that theorem source_info_dispatch checks on the source",
 ]
 ASSUMPTIONS = [
     "'final outputs' are the ports of the record fed by the last drawn step; 'reachable' is port-level reachability "
